@@ -65,3 +65,24 @@ CLAIMS["C04"] = dict(
           "with numeric thresholds (is the file empty, first-100-lines sniffing) are not decided."),
     technique="sibling cross-check of reader chains, loop-span/coverage rule with affine bounds, who-may-write, must-call",
     design_ref="DESIGN.md section 3, C04 (R04a-R04c)")
+
+CLAIMS["C06"] = dict(
+    text=("Decides the lexical contract that any round trip needs: every token detect_alignment_format / read_msf / "
+          "read_fasta search for is a substring of a literal the writer of the same format emits, no detection token of "
+          "one format is emitted by another format's writer, the pointer skip after 'Name:' equals the token length; every "
+          "store/copy into msa_seq.name is bounded by its buffer; no reader identifies a sequence by a prefix comparison."),
+    note=("One clause family only: equality of the re-read alignment (block arithmetic at multiples of 60, name "
+          "extraction over all names) is NOT decided - it needs the loop semantics over run-time widths."),
+    technique="reader/writer token-set agreement from string literals, bounded-copy rule, prefix-comparison rule",
+    design_ref="DESIGN.md section 3, C06 (R06a-R06c)")
+
+CLAIMS["C15"] = dict(
+    text=("Decides agreement inside write_msa_msf between header and body: the integer printed after 'MSF:' and every "
+          "'Len:' resolves (reaching definitions) to the same source as the bound that ends row emission; every GCG "
+          "checksum is taken over that span of the row whose name is printed alongside, the overall check sums all numseq "
+          "rows; banner and Type: choices, evaluated in the two (biotype, L) states kalign_run can leave behind, label "
+          "protein as protein and nucleotide as nucleic."),
+    note=("Header clauses only: wrapping at 60, presence of every sequence in every block and the checksum arithmetic "
+          "itself (overflow at extreme widths) are NOT decided."),
+    technique="reaching-definition agreement between header fields and emission bound; two-state evaluation of the type predicate",
+    design_ref="DESIGN.md section 3, C15 (R15a-R15c)")
